@@ -11,10 +11,10 @@ import (
 
 // Field of a generated struct.
 type Field struct {
-	Name string `json:"name"`           // Go field name; for embedded fields the type name
-	Tag  string `json:"tag,omitempty"`  // value of the hseq tag ("" = no tag)
-	Kind string `json:"kind"`           // plain | embed | pembed | nested | embedns
-	Type string `json:"type"`           // plain/embedns: universe type expression; embed/pembed/nested: struct name
+	Name string `json:"name"`          // Go field name; for embedded fields the type name
+	Tag  string `json:"tag,omitempty"` // value of the hseq tag ("" = no tag)
+	Kind string `json:"kind"`          // plain | embed | pembed | nested | embedns
+	Type string `json:"type"`          // plain/embedns: universe type expression; embed/pembed/nested: struct name
 }
 
 // Struct is one generated struct type.
